@@ -155,7 +155,7 @@ class Run:
         self.seed = seed
         self.level = level
         self.t0 = time.time()
-        self.workdir = os.path.join(OUT, prop, tier)
+        self.workdir = os.path.join(OUT, prop, tier if tier != "replay" else "replay_work")
         shutil.rmtree(self.workdir, ignore_errors=True)
         os.makedirs(self.workdir, exist_ok=True)
         self.replay_dir = os.path.join(OUT, prop, "replay")
